@@ -252,6 +252,11 @@ def missing_cases(quick):
                     del H["nodes"][l]["args"][f["name"]]
                     H["_missing"] = [l, f["name"]]
                     out.append(H)
+                    if not (SCHEMA[n["cls"]].get("task") or SCHEMA[n["cls"]].get("light") or n.get("pre") or n.get("meta") is not None):
+                        # the same hole in a configuration that was loaded from a parameter file
+                        H2 = copy.deepcopy(H)
+                        H2["_loaded"] = True
+                        out.append(H2)
     return out
 
 
@@ -273,13 +278,27 @@ def eval_missing(item):
     for G in item["cases"]:
         G = copy.deepcopy(G)
         miss = G.pop("_missing")
+        loaded = G.pop("_loaded", False)
         rec = {}
 
-        def script(wd, result, proc, G=G, rec=rec):
+        def extra(label, obj, B, miss=miss, rec=rec):
+            # route "loaded": the configuration with the hole comes out of a parameter file written before the parameter became
+            # required (deserialized as a configuration: sealed by the loader, never validated)
+            if label == miss[0]:
+                from experimaestro.core.objects import ConfigInformation
+                import universe.g as U
+                args = {a.name: v for a, v in obj.__xpm__.xpmvalues() if not a.constant and a.generator is None}
+                full = obj.__class__(**dict(args, **{miss[1]: {"i": 1, "child": U.Leaf(i=0)}[miss[1]]}))
+                data = json.loads(full.__xpm__.__json__())
+                del data[-1]["fields"][miss[1]]
+                B.objs[label] = ConfigInformation.fromParameters(data, as_instance=False)
+                rec["loaded"] = True
+
+        def script(wd, result, proc, G=G, rec=rec, extra=(extra if loaded else None)):
             from experimaestro import experiment
             with experiment(wd, "xp", launcher=X.make_launcher(wd)) as xp:
                 try:
-                    B = Gr.build(G, init=False)
+                    B = Gr.build(G, init=False, extra=extra)
                     rec["built"] = True
                     rec["registry_before"] = len(xp.scheduler.jobs)
                     rec["unfinished_before"] = xp.unfinishedJobs
@@ -295,7 +314,7 @@ def eval_missing(item):
         r, hub, world = V.run_world([script])
         out["n"] += 1
         embedded = upstream_of(G, miss[0])
-        case = {"missing": miss, "G": G}
+        case = {"missing": miss, "G": G, "loaded": loaded}
         rootx = G["nodes"][G["root"]]["args"].get("x", 0)
         if "build_error" in rec:
             # the graph could not even be built: an embedded task with the hole was rejected at its own submission (fine)
@@ -352,7 +371,7 @@ def run(ctx):
     for o in mouts:
         m += o["n"]
         for b in o["bad"]:
-            res.violation(f"{b['kind']}:{b.get('where', '')}", f"required {b['missing']} missing in {json.dumps(b['G'])[:500]}: {b.get('rec') or b.get('error') or ''}", {"part": "missing", "bad": b})
+            res.violation(f"{b['kind']}:{b.get('where', '')}" + (":loaded" if b.get("loaded") else ""), f"required {b['missing']} missing in {json.dumps(b['G'])[:500]}: {b.get('rec') or b.get('error') or ''}", {"part": "missing", "bad": b})
     res.coverage = {
         "evaluations": n + m,
         "distinct_nontrivial": len(types) + len(cases),
@@ -376,6 +395,6 @@ def replay(ctx, payload):
     if payload["part"] == "missing":
         from . import gwork
         b = payload["bad"]
-        G = dict(b["G"], _missing=b["missing"])
+        G = dict(b["G"], _missing=b["missing"], _loaded=b.get("loaded", False))
         print(eval_missing({"cases": [G]}))
     return 0
